@@ -53,7 +53,7 @@ CHECKS = {
    note="Trusted: vlib/ref/sm9.py. The pairing value is not compared with an independent Miller loop. C3 is HMAC-SM3 as sm9.h documents (differs from GM/T 0044.4's MAC) - noted, not alarmed.",
    design="4/C17"),
  "C04": dict(level="exploration", technique="property-based differential testing (Hypothesis) of every cipher/mode interface against OpenSSL 3 primitives and Python modes written from the standards; round-trip, chunking-invariance, in-place and NULL-out size-query discipline with exactly-sized ASan heap buffers; 4 build variants",
-   text="Generated (key/IV/counter-at-carry pattern, length biased to block boundaries 0..4 KiB with a few up to 64 KiB, partition, CFB s 1..16, GCM IV 1..64 incl. IVs solved so the 32-bit counter wraps, tag 12..16, CCM nonce 7..13 / tag 4..16 / AAD-length encodings, XTS unit sizes) cases; library must equal the reference byte for byte one-shot, streaming and in place, decrypt(encrypt) = id, outlen <= the size reported for out=NULL. Exploration only, not exhaustive over lengths.",
+   text="Generated (key/IV/counter-at-carry pattern, length biased to block boundaries 0..4 KiB with a few up to 64 KiB, partition, CFB s 1..16, GCM IV 1..64 incl. IVs solved so the 32-bit counter wraps, tag 12..16, CCM nonce 7..13 / tag 4..16 / AAD-length encodings, XTS unit sizes; ZUC also from explicit work-mode states whose LFSR feedback is aimed at residue 0 / 1 / p-1 at a drawn step) cases; library must equal the reference byte for byte one-shot, streaming and in place, decrypt(encrypt) = id, outlen <= the size reported for out=NULL. Exploration only, not exhaustive over lengths.",
    note="Trusted: OpenSSL 3.0 EVP (SM4/AES ECB,CBC,CTR,OFB,CFB128, AES-GCM/CCM/XTS, ChaCha20); vlib/ref/modes.py and zuc.py (validated at import on published and repo vectors). Messages > 64 KiB, CCM nonce 9 with >= 64 KiB payload and AAD >= 2^32 not generated. CBC-MAC of the empty message excluded.",
    design="4/C04"),
  "C05": dict(level="fault_enumeration", technique="per generated instance, exhaustive enumeration of the single-edit neighbourhood (all bit flips of nonce/AAD/ciphertext/tag, all truncations, all 256 one-byte extensions) through one-shot and streaming decryptors; reject-all oracle with a positive control",
